@@ -246,3 +246,42 @@ func init() {
 		)
 	}
 }
+
+// Round seven (M1-2): the cache lookup and the uncached lookup share one error variable and the
+// tests are nested / spread over a switch: the cache's answer reaches the NotFound test of the create
+// path only as nil. C01.R8 / C02.R5 judge the feasible sources of the tested error per incoming edge.
+func init() {
+	const pr = "internal/controllers/phase_reconciler.go"
+	const wrap = "return nil, fmt.Errorf(\"getting %s: %w\", desiredObj.GroupVersionKind(), err)\n"
+	const lookup = "\terr = r.dynamicCache.Get(ctx, objKey, currentObj)\n\tif err != nil && !apimachineryerrors.IsNotFound(err) {\n\t\t" + wrap +
+		"\t}\n\tif apimachineryerrors.IsNotFound(err) {\n\t\terr = r.uncachedClient.Get(ctx, objKey, currentObj)\n\t\tif err != nil && !apimachineryerrors.IsNotFound(err) {\n\t\t\t" + wrap +
+		"\t\t}\n\t}\n\tif apimachineryerrors.IsNotFound(err) {\n\t\t// The object is not yet present on the cluster,\n"
+	const tail = "\tif err != nil && !apimachineryerrors.IsNotFound(err) {\n\t\t" + wrap + "\t}\n\tif err != nil && apimachineryerrors.IsNotFound(err) {\n\t\t// The object is not yet present on the cluster,\n"
+	nested := func(second string) string {
+		return "\terr = r.dynamicCache.Get(ctx, objKey, currentObj)\n\tif err != nil {\n\t\tif !apimachineryerrors.IsNotFound(err) {\n\t\t\t" + wrap + "\t\t}\n" + second + "\t}\n" + tail
+	}
+	const switched = "\terr = r.dynamicCache.Get(ctx, objKey, currentObj)\n\tswitch {\n\tcase err == nil:\n\tcase apimachineryerrors.IsNotFound(err):\n\t\terr = r.uncachedClient.Get(ctx, objKey, currentObj)\n\tdefault:\n\t\t" + wrap + "\t}\n" + tail
+	for _, prop := range []string{"C01", "C02"} {
+		rule := map[string]string{"C01": "C01.R8@", "C02": "C02.R5@"}[prop]
+		addMutants(
+			Mutant{Prop: prop, Name: "r8-benign-nested-lookup-shared-error", File: pr, Benign: true, Old: lookup,
+				New: nested("\t\terr = r.uncachedClient.Get(ctx, objKey, currentObj)\n")},
+			Mutant{Prop: prop, Name: "r8-benign-lookup-as-switch", File: pr, Benign: true, Old: lookup, New: switched},
+			Mutant{Prop: prop, Name: "r8-nested-lookup-uncached-error-shadowed", File: pr, Old: lookup,
+				New:    nested("\t\tif err := r.uncachedClient.Get(ctx, objKey, currentObj); err != nil && !apimachineryerrors.IsNotFound(err) {\n\t\t\t" + wrap + "\t\t}\n"),
+				Why:    "the uncached answer lands in a shadowing variable: the create path is entered on the cache's NotFound",
+				Expect: []string{rule + "(*internal/controllers.PhaseReconciler).reconcileObject"}},
+			Mutant{Prop: prop, Name: "r8-nested-lookup-asks-cache-twice", File: pr, Old: lookup,
+				New:    nested("\t\terr = r.dynamicCache.Get(ctx, objKey, currentObj)\n"),
+				Expect: []string{rule + "(*internal/controllers.PhaseReconciler).reconcileObject"}},
+			Mutant{Prop: prop, Name: "r8-nested-lookup-uncached-only-sometimes", File: pr, Old: lookup,
+				New:    nested("\t\tif collisionProtection != corev1alpha1.CollisionProtectionNone {\n\t\t\terr = r.uncachedClient.Get(ctx, objKey, currentObj)\n\t\t}\n"),
+				Why:    "with CollisionProtection None the cache's NotFound alone leads to the create",
+				Expect: []string{rule + "(*internal/controllers.PhaseReconciler).reconcileObject"}},
+			Mutant{Prop: prop, Name: "r8-switch-lookup-uncached-in-wrong-case", File: pr, Old: lookup,
+				New:    "\terr = r.dynamicCache.Get(ctx, objKey, currentObj)\n\tswitch {\n\tcase err == nil:\n\t\terr = r.uncachedClient.Get(ctx, objKey, currentObj)\n\tcase apimachineryerrors.IsNotFound(err):\n\tdefault:\n\t\t" + wrap + "\t}\n" + tail,
+				Why:    "the API server is asked only for objects the cache already has; a cache miss goes straight to the create",
+				Expect: []string{rule + "(*internal/controllers.PhaseReconciler).reconcileObject"}},
+		)
+	}
+}
